@@ -227,6 +227,8 @@ def absorb_cmp(model, rep, rule, kinds):
         dep = Report('C05')
         tables = UnitTables(model)
         c05.check_cmp(model, dep, SX(model, tables), tables)
+        c05.check_tables(model, dep, tables)
+        c05.check_to(model, dep, SX(model, tables), tables)
         sxm.POSITIVE_ATOMS.clear()
         sxm.POSITIVE_ATOMS.update(saved)
         _C05_CACHE.clear()
@@ -241,5 +243,10 @@ def absorb_cmp(model, rep, rule, kinds):
         if i.rule == 'C05.cmp' and any(i.construct.endswith(p) for p in pairs):
             n += 1
             (rep.holds if i.status == 'HOLDS' else (rep.violation if i.status == 'VIOLATION' else rep.cannot))(rule, i.construct, i.detail, i.loc)
+    # ... which convert the right operand to the left one's unit: the unit tables and to() of the compared kinds
+    for i in dep.instances:
+        if i.rule in ('C05.table', 'C05.to') and any(i.construct.startswith(k + '.') for k in kinds):
+            sub = i.rule.split('.', 1)[1]
+            (rep.holds if i.status == 'HOLDS' else (rep.violation if i.status == 'VIOLATION' else rep.cannot))(f'{rule}.{sub}', i.construct, i.detail, i.loc)
     rep.require(rule, 6, 'six comparison dunders per kind')
     return n
